@@ -122,3 +122,14 @@ fn f10_collect_exactly_short_records_error() {
     let r = p.parse("abc"); // panicked at combinator.rs "Can't fail!" unwrap
     assert!(r.has_errors());
 }
+
+// #8b Memoized::go hit path replays the stored error at `before` instead of its own position (ALT-POS; C06/C11)
+#[test]
+fn f08b_memo_hit_replays_error_at_its_own_position() {
+    let p = just::<_, _, R>("ab");
+    let plain = (&p).not().or_not().ignore_then((&p).labelled("L")).parse("ac");
+    let m = just::<_, _, R>("ab").memoized();
+    let memo = (&m).not().or_not().ignore_then((&m).labelled("L")).parse("ac");
+    let d = |r: &ParseResult<&str, Rich<char>>| r.errors().map(|e| format!("{:?}", e)).collect::<Vec<_>>();
+    assert_eq!(d(&plain), d(&memo), "a memo hit reports the failure at the wrong position");
+}
